@@ -33,8 +33,8 @@ The step from scanned terms to Symbols (Symbol.combine, merge across statements)
   concrete round trips (equation AND code) by evaluation of `parseEquationText ∘ feedbackText`.
 NOT proved (stated here, not hidden): (a) that the normalised template of an ARBITRARY well-formed `ts` is again the
 template of a token list (`normaliseWs` distributes over the `{}` holes), which would remove hypothesis `hN` and derive
-the side conditions of the feed-back form from those of `ts`; (b) `Stable` for every integer index: the core step
-`digitsGo_natDigits` (int() reads back the digits Python prints) is proved, the wrapping through `strip`/sign is not;
+the side conditions of the feed-back form from those of `ts`; (b) `Stable` for every integer index: now PROVED for the decidable fragment `Tok.stableB` (integer indexes within the
+int() digit limit, quoted periods): `stable_fragment`, `pyInt_fbSpell`; backticked periods are outside (excluded by the property);
 (c) the general statement for the code text (only `parseBody_render`'s formula and the evaluated examples)."
 -/
 namespace Fsic.C14
@@ -362,6 +362,31 @@ example : (eqCode (parseEquationText ['Y', ' ', '=', ' ', '`', 'l', 'e', 'n', '(
     as a lead of 2000). -/
 example : roundTrips ['Y', ' ', '=', ' ', 'X', '[', '`', '2', '0', '0', '0', '`', ']'] = false := by decide
 
+/-- **stable_fragment**: `Stable` is no longer an assumption for the decidable fragment `Tok.stableB` — every term
+    whose index is an integer (within CPython's `int()` digit limit) or a quoted period, and every non-term token. -/
+theorem stable_fragment (t : Tok) (h : t.stableB = true) : Stable t := Tok.stableB_sound t h
+
+/-- **normal_form_fixed_point_fragment**: `normal_form_fixed_point` with the index hypothesis replaced by the
+    decidable predicate `∀ t ∈ ts, t.stableB`. -/
+theorem normal_form_fixed_point_fragment (L R : List Tok) (a b : List Char) (lt rt : List Term)
+    (hSt : ((stmtToks L R a b).all Tok.stableB) = true)
+    (hW : Wf false (stmtToks (L.map (spellTok fbSpell)) (R.map (spellTok fbSpell)) a b))
+    (hWl : Wf false (L.map (spellTok fbSpell) ++ [.chunk a])) (hWr : Wf false (.chunk b :: R.map (spellTok fbSpell)))
+    (hEq : ∀ c ∈ renderAll (L.map (spellTok fbSpell) ++ [.chunk a]), c ≠ '=')
+    (hV : (startsWith ['`'] (renderAll (stmtToks (L.map (spellTok fbSpell)) (R.map (spellTok fbSpell)) a b)) &&
+           endsWith ['`'] (renderAll (stmtToks (L.map (spellTok fbSpell)) (R.map (spellTok fbSpell)) a b))) = false)
+    (hB : braceNet 0 (renderAll (stmtToks (L.map (spellTok fbSpell)) (R.map (spellTok fbSpell)) a b)) = 0)
+    (hO : ∀ c ∈ outsideAll (stmtToks (L.map (spellTok fbSpell)) (R.map (spellTok fbSpell)) a b), isBrace c = false)
+    (hl : termsOf (expectAll 0 (L.map (spellTok fbSpell) ++ [.chunk a])) = some lt)
+    (hr : termsOf (expectAll 0 (.chunk b :: R.map (spellTok fbSpell))) = some rt)
+    (hK : (hasKind .keyword lt || hasKind .invalid rt) = false) (hS : symbolStage lt rt = none)
+    (hN : normaliseWs (holesAll (stmtToks (L.map (spellTok fbSpell)) (R.map (spellTok fbSpell)) a b)) =
+          holesAll (stmtToks (L.map (spellTok fbSpell)) (R.map (spellTok fbSpell)) a b)) :
+    ∃ code, parseBody (renderAll ((stmtToks L R a b).map (spellTok fbSpell))) =
+      .parsed lt rt (.ok (renderAll ((stmtToks L R a b).map (spellTok tSpell)))) (.ok code) :=
+  normal_form_fixed_point L R a b lt rt
+    (fun t ht => stable_fragment t ((List.all_eq_true.mp hSt) t ht)) hW hWl hWr hEq hV hB hO hl hr hK hS hN
+
 /-! ### The token-level theorems are not vacuous: `Y = { a } * X[ -1 ] + f  (Z)` -/
 
 def nfL : List Tok := [.var ['Y'] none]
@@ -375,7 +400,7 @@ instance (t : Tok) : Decidable (Stable t) := by unfold Stable; infer_instance
 /-- every hypothesis of `normal_form_fixed_point` holds for this statement … -/
 example : ∃ code, parseBody (renderAll ((stmtToks nfL nfR [' '] [' ']).map (spellTok fbSpell))) =
     .parsed nfLt nfRt (.ok (renderAll ((stmtToks nfL nfR [' '] [' ']).map (spellTok tSpell)))) (.ok code) :=
-  normal_form_fixed_point nfL nfR [' '] [' '] nfLt nfRt (by decide) (wfB_sound _ _ (by decide)) (wfB_sound _ _ (by decide))
+  normal_form_fixed_point_fragment nfL nfR [' '] [' '] nfLt nfRt (by decide) (wfB_sound _ _ (by decide)) (wfB_sound _ _ (by decide))
     (wfB_sound _ _ (by decide)) (by decide) (by decide) (by decide) (by decide) (by decide) (by decide) (by decide)
     (by decide) (by decide)
 
